@@ -1,10 +1,10 @@
-\* M: leaf threshold lowered to 2 so that 3 specs already recurse (tables of 4); sizes 1 and 3 units of 1 bit, both fetch orders
+\* M: leaf threshold lowered to 2 so that 3 specs already recurse; sizes 1..3 units of 1 bit, both fetch orders
 CONSTANTS
   U = 1
-  Sizes = {1, 3}
+  Sizes = {1, 2, 3}
   Endians <- EBoth
   LeafMax = 2
-  MaxSpecs = 4
+  MaxSpecs = 3
   HookVals = {TRUE}
   MinW = 1
   CallExtra = 0
